@@ -149,7 +149,7 @@ def binop(I, op, a, b, inplace=False):
             import operator
             return {"Add": operator.add, "Sub": operator.sub, "Mult": operator.mul, "Div": operator.truediv,
                     "FloorDiv": operator.floordiv, "Mod": operator.mod, "Pow": operator.pow}[name](a, b)
-        raise Undecided("float arithmetic on symbolic values")
+        return Opaque("float")        # floats are not modelled: the result may be stored or logged, never branched on
     # sequences
     if name == "Add":
         if isinstance(a, (list, tuple)) and isinstance(b, (list, tuple)) and type(a) == type(b):
